@@ -21,6 +21,10 @@ def c05_jobs(tier):
 #  * BiCGStab(L >= 2) and IDR(s) have no reference in the property text beyond finite termination; the harness additionally observes their
 #    *defining steps* (minimal-residual polynomial of degree L after L BiCG steps; the dimension-reduction step of IDR(s) and the monotonicity
 #    that defines residual smoothing).  These are the algorithms "named" by the property's first sentence, no stronger.
+#  * scale invariance (sub-check scale): iterates for (2^j A, 2^j f, 2^-j P), j in {-40,-30,-20,20,30}, must equal those for (A, f, P) BITWISE for every method
+#    (power-of-two scaling is exact and every quotient the methods form is a ratio of equally scaled quantities; argued next to sub_scale in the harness;
+#    verified on the unchanged tree, real and complex).  Left preconditioning reports ||P r|| / ||f||, so its reported value and tolerance carry 2^-j exactly.
+#    Catches absolute thresholds inside a method (seeded change C05-3: absolute breakdown guard on <Ap,p> in CG).
 #  * finite termination is a statement about the generator (recorded as observation termination_generator): either m <= n/2 distinct
 #    eigenvalues, or a full spectrum with kappa <= 3 and |arg| <= 0.7; calibrated on the repaired tree over 8 seeds x 800 systems
 #    (every method below 1e-8 inside its budget).
@@ -37,7 +41,7 @@ PROPS['C05'] = dict(
               '(least squares over an orthonormal Krylov basis, van der Vorst / Sleijpen-Fokkema recurrences, stationary recurrence); same workload under ASan/UBSan',
     level_text='For every sampled system each solver is run with maxiter = k, tol = 0 for every k up to the subspace size and its k-th iterate is compared with the defining iterate '
                'computed independently in long double: A-norm / residual-norm minimiser over the exactly known Krylov space (CG, GMRES both sides, FGMRES, first LGMRES cycle), '
-               'reference recurrences (BiCGStab both sides, BiCGStab(L), Richardson), the defining steps of IDR(s), monotonicity of the GMRES family across restarts, and finite termination. '
+               'reference recurrences (BiCGStab both sides, BiCGStab(L), Richardson), the defining steps of IDR(s), monotonicity of the GMRES family across restarts, finite termination, and bitwise invariance of the iterates of every method under power-of-two rescaling of the system (tol = 0 budgets and a tight-tolerance run). '
                'Held means no observed execution deviated; it is not a proof for unobserved systems.',
     level_note='trusts Eigen long-double algebra as the definition; n <= 24, kappa <= 10; IDR(s) shadow space is private, so only its dimension-reduction and smoothing steps and termination are observed; '
                'BiCGStab(L) with convex = false (L > 1) has no reference and is covered by termination only')
